@@ -15,6 +15,7 @@ from simkit.core import EventLog, Outcome, Violation, stream_rng, stable_hash
 ID = "C09"
 LEVEL = "exploration"
 TIERS = {"quick": {"runs": 32000, "wall": 150}, "thorough": {"runs": 800000, "wall": 1500}}
+HASHSEED_RUNS = {"quick": 300, "thorough": 3000}    # S7: identical event logs under other hash seeds
 RULE = ("start state = empty / dict-initialised / parsed-from-text / parsed-from-lines "
         "paragraph over a key alphabet of 6 names x case variants; trace = seeded history "
         "(<= 60 steps, <= 4 live handles) of set / get / del / pop / setdefault / clear / in / "
